@@ -379,6 +379,17 @@ def write_evidence(prop, ev):
     os.replace(tmp, os.path.join(d, prop + ".json"))
 
 
+def same_violation(a, b):
+    """two signatures name the same violation: equal, or both are deaths of the process in the same phase / function
+    (how a corrupted process dies -- SIGSEGV, abort, sanitizer report, resource limit -- may vary between executions)"""
+    if a == b:
+        return True
+    if a and b and a.startswith("death:") and b.startswith("death:"):
+        pa, pb = a.split(":"), b.split(":")
+        return len(pa) >= 3 and len(pb) >= 3 and pa[1] == pb[1] and not (is_hang_sig(a) != is_hang_sig(b))
+    return False
+
+
 def process_candidates(prop, engine, binary, cands, get_plan, env=None, header=None, max_report=12, min_budget=300,
                        exec_timeout=300, simplify=None, args=None, log=print, pin_first=False, context_plan=None,
                        fresh_process_is_truth=False):
@@ -424,7 +435,8 @@ def process_candidates(prop, engine, binary, cands, get_plan, env=None, header=N
             # runs, but a fresh process does not show (twice, identically), is an artefact of process reuse
             log("NOTE candidate %s (run %s) is not shown by a fresh process: artefact of process reuse, dropped" % (sig, c["run"]))
             continue
-        if r1["sig"] != sig or r2["sig"] != sig or r1["hash"] != r2["hash"]:
+        deaths = sig.startswith("death:")
+        if not same_violation(r1["sig"], sig) or not same_violation(r2["sig"], sig) or (r1["hash"] != r2["hash"] and not deaths):
             harness_errors.append("candidate %s (run %s) did not reproduce in a fresh process: got %s/%s hashes %s/%s; stderr of the original: %s" %
                                   (sig, c["run"], r1["sig"], r2["sig"], r1["hash"], r2["hash"], (c.get("stderr") or "")[-600:].replace("\n", " | ")))
             continue
@@ -434,7 +446,7 @@ def process_candidates(prop, engine, binary, cands, get_plan, env=None, header=N
             continue
 
         def test(ops):
-            return exec_plan(binary, ops, env, timeout=exec_timeout, header=hdr, args=args)["sig"] == sig
+            return same_violation(exec_plan(binary, ops, env, timeout=exec_timeout, header=hdr, args=args)["sig"], sig)
 
         if is_hang_sig(sig):
             min_budget_here = min(min_budget, 24)  # every re-run of a hanging plan costs a whole time budget
@@ -449,7 +461,7 @@ def process_candidates(prop, engine, binary, cands, get_plan, env=None, header=N
         if simplify:
             small = simplify(small, test)
         final = exec_plan(binary, small, env, timeout=exec_timeout, header=hdr, args=args)
-        if final["sig"] != sig:
+        if not same_violation(final["sig"], sig):
             small = plan
             final = r1
         rdir = os.path.join(OUT, "replays", prop)
@@ -466,7 +478,7 @@ def process_candidates(prop, engine, binary, cands, get_plan, env=None, header=N
             f.write("\n")
         # the replay file itself must reproduce in a fresh process
         chk = replay_file(binary, path, env, exec_timeout, args=args)
-        if chk["sig"] != sig:
+        if not same_violation(chk["sig"], sig):
             harness_errors.append("replay file %s did not reproduce (%s instead of %s)" % (path, chk["sig"], sig))
             continue
         violations.append({"sig": sig, "path": path, "ops": len(small), "from_ops": len(plan), "count": len(by_sig[sig])})
